@@ -363,7 +363,7 @@ PLAN: Dict[str, dict] = {
         "uses": [
             G("R-FLOW", "display-order options influence only the iteration order; sign options only the joiners"),
             G("R-OPT-LAYERS", "display_* read only in _to_string", only=msg("'display_")),
-            G("R-OPT-PAIRING", "display_graded/display_reverse paired with graded/reverse", only=in_funcs("_to_string")),
+            G("R-OPT-PAIRING", "display_graded/display_reverse paired with graded/reverse", only=in_files("array_function/array_repr.py")),
             G("R-STABLE", "term order platform independent"),
             G("R-PAIR", "sympy import pairs monoms() and coeffs() of one ordering", only=msg("monoms")),
         ],
